@@ -26,7 +26,7 @@ func NewPHash64(img image.Image) (phash PHash64, err error) {
 	if img != nil {
 		size = img.Bounds().Size()
 	}
-	if size.X != size.Y && size.X != 64 {
+	if img == nil || size.X != 64 || size.Y != 64 {
 		err = errors.New("error image size incompatible. PHash requires 64x64 image")
 		return
 	}
@@ -56,7 +56,7 @@ func NewPHash256(img image.Image) (phash PHash256, err error) {
 	if img != nil {
 		size = img.Bounds().Size()
 	}
-	if size.X != size.Y && size.X != 256 {
+	if img == nil || size.X != 256 || size.Y != 256 {
 		err = errors.New("error image size incompatible. PHash256 requires 256x256 image")
 		return
 	}
